@@ -1,6 +1,6 @@
 #!/bin/bash
 # Thorough tier of the checks whose thorough tier changed most recently (used through `vp run`).
 export VERIF_REPO="${VP_RUN_REPO:-/repo}"
-for c in C14 C13 C11 C06 C03 C01; do
+for c in C01 C14 C13 C11; do
   echo "=== $c thorough"; /usr/bin/time -f "%es" ./run.sh $c thorough 2>&1 | grep -E "^C[0-9]+ tier|VIOLATION|signature|what|MACHINERY|KNOWN|^[0-9.]+s$|died" | cut -c1-400 | head -40
 done
